@@ -21,14 +21,17 @@ import (
 	"sort"
 	"strconv"
 	"strings"
+	"sync"
 	"testing"
 	"time"
 
 	"github.com/uber-go/tally"
 	"github.com/uber/kraken/core"
+	"github.com/uber/kraken/gen/go/proto/p2p"
 	"github.com/uber/kraken/lib/store"
 	"github.com/uber/kraken/lib/torrent/networkevent"
 	"github.com/uber/kraken/lib/torrent/scheduler/announcequeue"
+	"github.com/uber/kraken/lib/torrent/scheduler/conn"
 	"github.com/uber/kraken/lib/torrent/scheduler/dispatch"
 	"github.com/uber/kraken/lib/torrent/storage/agentstorage"
 	"github.com/uber/kraken/lib/torrent/storage/piecereader"
@@ -54,6 +57,22 @@ type c17Run struct {
 	nInc    int
 	evicted [c17NTor]bool // the blob of the torrent was evicted from the cache since it last became complete
 	pending []string      // sends of the current operation
+	// a piece writer parked inside agentstorage's WritePiece (between marking its piece complete and counting it)
+	parked [c17NTor]*c17Parked
+	early  map[*dispatch.Dispatcher]bool // its completion notice was seen before the blob was committed
+}
+
+type c17Parked struct {
+	release chan struct{}
+	a, b    *vPeer
+	d       *dispatch.Dispatcher
+}
+
+func c17PieceMsg(b *vBlob, pi int) *conn.Message {
+	data := append([]byte(nil), b.piece(pi)...)
+	return &conn.Message{Message: &p2p.Message{Type: p2p.Message_PIECE_PAYLOAD,
+		PiecePayload: &p2p.PiecePayloadMessage{Index: int32(pi), Offset: 0, Length: int32(len(data))}},
+		Payload: piecereader.NewBuffer(data)}
 }
 
 // c17Req is one real Download call.
@@ -325,6 +344,16 @@ func (r *c17Run) do(op []string, tors *[]int) bool {
 	}
 	rec := op[1:]
 	var first []string
+	switch op[1] {
+	case "rm", "tick", "stop", "evict", "finish", "req", "creq":
+		// a parked writer goes on first (as its own, recorded operation): these events remove or replace what it writes
+		// to (and a CreateTorrent in that window finds every piece marked complete and commits the blob itself)
+		for i := range r.parked {
+			if r.parked[i] != nil {
+				r.do([]string{"op", "rfinish", fmt.Sprintf("h%d", i)}, tors)
+			}
+		}
+	}
 	switch {
 	case op[1] == "adv" && len(op) == 3:
 		n, err := strconv.ParseInt(op[2], 10, 64)
@@ -447,11 +476,112 @@ func (r *c17Run) do(op []string, tors *[]int) bool {
 		if !ok {
 			return false
 		}
-		res := w.deliverPiece(i, 0, true)
+		res := "absent"
+		if ctrl := w.ctrl(i); ctrl != nil {
+			was := ctrl.dispatcher.Complete()
+			for pi := 0; pi < w.np; pi++ {
+				res = w.deliverPiece(i, pi, true)
+			}
+			switch {
+			case was:
+				res = "dup"
+			case ctrl.dispatcher.Complete():
+				res = "ok"
+			default:
+				res = "invalid"
+			}
+		}
 		first = []string{res}
 		if res == "ok" {
 			r.evicted[i] = false
 			r.awaitNotice(w.ctrl(i).dispatcher)
+		}
+	case op[1] == "pfinish" && len(op) == 3:
+		// the last two pieces are written concurrently by two peers: writer A is parked inside WritePiece after it
+		// marked its piece complete and before it counted it (agentstorage VerifPoint inc_num_complete); writer B
+		// then runs to the end: it must not find the torrent complete — nothing is committed yet.
+		i, ok := c17Tor(op[2])
+		if !ok || w.np < 2 {
+			return false
+		}
+		first = []string{"none"}
+		ctrl := w.ctrl(i)
+		if ctrl == nil || ctrl.dispatcher.Complete() || r.parked[i] != nil || w.loop.isStopped() {
+			break
+		}
+		if !w.exists(w.cads.Download(), i) {
+			first = []string{"invalid"} // stale torrent object: its download file was deleted
+			break
+		}
+		bf := ctrl.dispatcher.Stat().Bitfield()
+		if bf.Test(uint(w.np-2)) || bf.Test(uint(w.np-1)) {
+			break
+		}
+		for pi := 0; pi < w.np-2; pi++ {
+			w.deliverPiece(i, pi, true)
+		}
+		pk := &c17Parked{release: make(chan struct{}), d: ctrl.dispatcher}
+		reached := make(chan struct{}, 1)
+		var once sync.Once
+		agentstorage.VerifPoint = func(pt string) {
+			if pt != "inc_num_complete" {
+				return
+			}
+			hit := false
+			once.Do(func() { hit = true })
+			if hit {
+				reached <- struct{}{}
+				<-pk.release
+			}
+		}
+		pk.a = w.peer(i)
+		pk.a.push(c17PieceMsg(w.blobs[i], w.np-2))
+		select {
+		case <-reached:
+		case <-time.After(5 * time.Second):
+			panic("harness: the piece writer did not reach the parking point")
+		}
+		agentstorage.VerifPoint = nil
+		w.npeers++
+		pk.b = newVPeer(w.npeers)
+		if err := ctrl.dispatcher.AddPeer(pk.b.id, false, bitset.New(uint(w.np)), pk.b); err != nil {
+			panic(err)
+		}
+		pk.b.roundTrip(c17PieceMsg(w.blobs[i], w.np-1))
+		pk.b.drainSent()
+		r.parked[i] = pk
+		first = []string{"parked"}
+		// the completion notice is enabled only by the commit: none may be on its way now
+		if w.loop.waitFor(func(e event) bool {
+			ce, ok := e.(dispatcherCompleteEvent)
+			return ok && ce.dispatcher == pk.d
+		}, 20*time.Millisecond) && !pk.d.Complete() {
+			r.tr.PropFail("completion-notice-before-commit", op[2])
+			r.early[pk.d] = true
+		}
+	case op[1] == "rfinish" && len(op) == 3:
+		// the parked writer goes on: counts its piece, commits the blob to the cache, the torrent is complete
+		i, ok := c17Tor(op[2])
+		if !ok {
+			return false
+		}
+		first = []string{"none"}
+		pk := r.parked[i]
+		if pk == nil {
+			break
+		}
+		r.parked[i] = nil
+		close(pk.release)
+		pk.a.push(&conn.Message{Message: &p2p.Message{Type: p2p.Message_CANCEL_PIECE, CancelPiece: &p2p.CancelPieceMessage{}}})
+		pk.b.Close()
+		pk.b.recvOnce.Do(func() { close(pk.b.recv) })
+		first = []string{"invalid"}
+		if pk.d.Complete() {
+			first = []string{"ok"}
+			r.evicted[i] = false
+			if !r.early[pk.d] {
+				r.awaitNotice(pk.d)
+			}
 		}
 	case op[1] == "notice" && len(op) == 4:
 		i, ok := c17Tor(op[2])
@@ -545,6 +675,7 @@ func (r *c17Run) do(op []string, tors *[]int) bool {
 
 func c17Exec(tr *verifh.T, c verifh.Case) {
 	sttl, lttl := int64(10), int64(10)
+	np := 1
 	for _, t := range c.Cfg {
 		kv := strings.SplitN(t, "=", 2)
 		if len(kv) != 2 {
@@ -559,14 +690,30 @@ func c17Exec(tr *verifh.T, c verifh.Case) {
 			sttl = n
 		case "lttl":
 			lttl = n
+		case "np":
+			np = int(n)
 		}
 	}
-	if sttl < 1 || lttl < 1 {
+	if sttl < 1 || lttl < 1 || np < 1 || np > 4 {
 		return
 	}
-	w := vWorldFor(time.Duration(sttl), time.Duration(lttl), 1, c17NTor)
-	r := &c17Run{w: w, tr: tr, gens: map[*dispatch.Dispatcher]int{}, missing: vBlobFor(7, 1)}
-	tr.Cfg(fmt.Sprintf("sttl=%d", sttl), fmt.Sprintf("lttl=%d", lttl))
+	w := vWorldFor(time.Duration(sttl), time.Duration(lttl), np, c17NTor)
+	r := &c17Run{w: w, tr: tr, gens: map[*dispatch.Dispatcher]int{}, missing: vBlobFor(7, 1), early: map[*dispatch.Dispatcher]bool{}}
+	if np == 1 {
+		tr.Cfg(fmt.Sprintf("sttl=%d", sttl), fmt.Sprintf("lttl=%d", lttl))
+	} else {
+		tr.Cfg(fmt.Sprintf("sttl=%d", sttl), fmt.Sprintf("lttl=%d", lttl), fmt.Sprintf("np=%d", np))
+	}
+	defer func() {
+		// never leave a writer parked (the world is reused)
+		agentstorage.VerifPoint = nil
+		for i := range r.parked {
+			if pk := r.parked[i]; pk != nil {
+				close(pk.release)
+				r.parked[i] = nil
+			}
+		}
+	}()
 	var tors []int
 	run := func(op []string) bool {
 		if p := verifh.Protect(func() { r.do(op, &tors) }); p != "" {
@@ -588,6 +735,11 @@ func c17Exec(tr *verifh.T, c verifh.Case) {
 	if okSoFar {
 		// epilogue: bring the scheduler to rest (apply every pending notice, then stop it); after that
 		// every download request must have exactly one result.
+		for i := range r.parked {
+			if r.parked[i] != nil {
+				run([]string{"op", "rfinish", fmt.Sprintf("h%d", i)})
+			}
+		}
 		for wid, q := range r.reqs {
 			if q != nil && q.ev != nil {
 				run([]string{"op", "apply", fmt.Sprintf("w%d", wid)})
@@ -696,6 +848,36 @@ func TestVerif_C17(t *testing.T) {
 	}
 	for d := 1; d <= depth; d++ {
 		rec(nil, d)
+	}
+	// (a4) two-piece blobs whose last two pieces are written concurrently (writer A parked between marking its piece
+	// complete and counting it, writer B running to the end): the completion notice is enabled only by the commit.
+	// Every 2-letter continuation over the events that could use a premature notice.
+	cfg2 := append(c17Cfg(5, 5), "np=2")
+	cont2 := [][][]string{
+		{{"op", "notice", "h0", "g*"}}, {{"op", "req", "h0"}}, {{"op", "rfinish", "h0"}}, {{"op", "adv", "5"}, {"op", "tick"}},
+		{{"op", "rm", "h0"}}, {{"op", "stop"}}, {{"op", "creq", "h0"}}, {{"op", "finish", "h0"}},
+	}
+	for _, first := range [][][]string{{{"op", "req", "h0"}}, {{"op", "inc", "h0"}, {"op", "req", "h0"}}, {{"op", "creq", "h0"}, {"op", "apply", "w*"}}, {{"op", "inc", "h0"}}} {
+		for _, l1 := range cont2 {
+			for _, l2 := range cont2 {
+				ops := append(append([][]string{}, first...), []string{"op", "pfinish", "h0"})
+				ops = append(ops, l1...)
+				ops = append(ops, l2...)
+				c17Exec(tr, verifh.Case{Cfg: cfg2, Ops: ops})
+				tr.Count("concurrent_last_pieces_cases", 1)
+			}
+		}
+	}
+	// plain two-piece downloads: every schedule to depth 3 over the core letters
+	core2p := [][][]string{{{"op", "req", "h0"}}, {{"op", "finish", "h0"}}, {{"op", "notice", "h0", "g*"}}, {{"op", "rm", "h0"}}, {{"op", "evict", "h0"}}}
+	for _, l1 := range core2p {
+		for _, l2 := range core2p {
+			for _, l3 := range core2p {
+				ops := append(append(append([][]string{}, l1...), l2...), l3...)
+				c17Exec(tr, verifh.Case{Cfg: cfg2, Ops: ops})
+				tr.Count("two_piece_cases", 1)
+			}
+		}
 	}
 	// (b) random long schedules over two torrents + an unknown blob, with separate idle limits
 	rnd := verifh.NewRand(verifh.Seed(), "c17")
